@@ -12,7 +12,7 @@
    observations of the harness on generated, mutated and random input for every entry point. *)
 From RML Require Import Model.Base Model.Amf0 Model.Chunk Model.ChunkDe Model.Messages Model.Handshake
   Proofs.Amf0Total Proofs.TotalProofs Proofs.ChunkDeProofs Proofs.ChunkDeFuel Proofs.ServerProofs Proofs.SessionFrame.
-From RML Require Import Model.Server Model.Client Proofs.ChunkDeMemory Proofs.SerSizeProofs Model.ChunkSer.
+From RML Require Import Model.Server Model.Client Proofs.ChunkDeMemory Proofs.SerSizeProofs Proofs.SessionMemory Model.ChunkSer.
 Local Open Scope N_scope.
 
 Theorem C03_message_decoder_total : forall tid data, is_value_or_error (of_payload tid data).
@@ -62,6 +62,15 @@ Theorem C03_deserializer_history_memory : forall pieces st' ms r, feed_all de_in
   (stored st' + paylen ms <= length (concat pieces))%nat.
 Proof. exact history_memory. Qed.
 
+(* the same for the sessions' own deserializers: an input call adds at most its own bytes to what the session holds *)
+Theorem C03_server_input_memory : forall s input clock,
+  (stored (sv_de (fst (server_handle_input s input clock))) <= stored (sv_de s) + length input)%nat.
+Proof. exact server_input_memory. Qed.
+
+Theorem C03_client_input_memory : forall c input clock,
+  (stored (cl_de (fst (client_handle_input c input clock))) <= stored (cl_de c) + length input)%nat.
+Proof. exact client_input_memory. Qed.
+
 (* and what a session writes is bounded by what it was asked to send: a packet is at most 17 * payload + 16 bytes *)
 Theorem C03_serializer_output_bounded : forall (st : ChunkSer.sstate) m force drop b st',
   (1 <= s_max st)%N -> ChunkSer.serialize st m force drop = Ok (b, st') -> (lenN b <= 17 * lenN (m_data m) + 16)%N.
@@ -78,3 +87,5 @@ Print Assumptions C03_handshake_step_total.
 Print Assumptions C03_deserializer_call_memory.
 Print Assumptions C03_deserializer_history_memory.
 Print Assumptions C03_serializer_output_bounded.
+Print Assumptions C03_server_input_memory.
+Print Assumptions C03_client_input_memory.
